@@ -104,7 +104,7 @@ def verify_authentication_response(
             f'Unexpected client data type "{client_data.type}", expected "{ClientDataType.WEBAUTHN_GET}"'
         )
 
-    if expected_challenge != client_data.challenge:
+    if byteslike_to_bytes(expected_challenge) != client_data.challenge:
         raise InvalidAuthenticationResponse("Client data challenge was not expected challenge")
 
     if isinstance(expected_origin, str):
